@@ -149,6 +149,22 @@ func recoverTpl(v ssa.Value, param ssa.Value, depth int) strTpl {
 			if in != nil && ok1 && ok2 {
 				return tplRepl{in, o, n}
 			}
+		default:
+			// the template built by a helper of the module (globToRegex(pattern)): its single return,
+			// the helper's parameters read as this call's arguments
+			if g := moduleHelperWithBody(&x.Call); g != nil && g.Signature.Results().Len() == 1 {
+				rets := successReturns(g)
+				if len(rets) != 1 {
+					return nil
+				}
+				res := make([]ssa.Value, len(x.Call.Args))
+				for i, a := range x.Call.Args {
+					res[i] = seeThrough(a)
+				}
+				var out strTpl
+				withBinding(g, res, func() { out = recoverTpl(retVal(rets[0], 0), param, depth-1) })
+				return out
+			}
 		}
 	case *ssa.Phi:
 		// straight-line reassignments of one variable do not create phis; anything else is unsupported
@@ -309,7 +325,7 @@ func runC29(c *Ctx) {
 					}
 				}
 			}
-			c.Check("first-match", "return-on-first-hit@FindRouteWithGroups", r, g && ns > 0 && inLoop, "the route must be returned at the first matching host, from inside the ordered loops")
+			c.Check("first-match", "return-on-first-hit@FindRouteWithGroups", r, g && ns > 0 && inLoop, fmt.Sprintf("the route must be returned at the first matching host, from inside the ordered loops (behind-match=%v edges=%d in-loop=%v)", g, ns, inLoop))
 		}
 		if n != 1 {
 			c.Undecided("first-match", "FindRouteWithGroups", fmt.Sprintf("expected one matching return, found %d", n))
